@@ -38,10 +38,11 @@ EXPLANATION = (
     "three hashutil functions are the same term, and that term evaluates (hashlib, independent of allmydata) to "
     "the published test vectors; (5) the call sites feed the chains with the documented inputs: lease secret from "
     "private/secret, storage index of the file, the server's lease seed, and the results travel unswapped to "
-    "allocate_buckets; write enabler from writekey and the foolscap write-enabler seed; writekey->readkey->"
+    "allocate_buckets (upload) and add_lease (checker); write enabler from writekey and the foolscap write-enabler seed; writekey->readkey->"
     "storage index in the SSK/MDMF caps, key->storage index in CHK caps; derive_mutable_keys; dirnode child-cap "
     "key/salt and the mutable data key are derived identically by writer and reader; the convergent key is fed "
-    "(k, n, segsize, convergence secret) in the order the tag formats them. "
+    "(k, n, segsize, convergence secret) in the order the tag formats them; (6) the folded descriptors reproduce "
+    "the 25 known-answer vectors recorded in test_hashutil.py when evaluated with hashlib. "
     "Undecided: SHA-256/AES themselves, the values of runtime inputs (server seeds, RSA DER encodings), "
     "base32 arithmetic.")
 TECHNIQUE = ("static analysis: symbolic folding of hashutil.py to derivation terms, compared with terms parsed from "
@@ -1472,6 +1473,69 @@ def run(ctx: Context):
                     ok = True
         r.require(ok, gp_fn, gp_fn.loc(), "get_all_encoding_parameters no longer yields (k, happy, n, segsize): the "
                   "convergent key would be fed different parameters")
+
+    # ---- 7. the repository's own known-answer vectors --------------------------
+    with ctx.rule("C17.7", "R5", "the folded descriptors, evaluated with hashlib, reproduce the known-answer vectors "
+                  "recorded in test_hashutil.py (compatibility vectors; also a check of the folding itself)",
+                  expected=20) as r:
+        TREL = "src/allmydata/test/test_hashutil.py"
+        try:
+            ttree = ast.parse(read_repo_text(TREL))
+        except SyntaxError as e:
+            raise AnalysisError("%s does not parse: %s" % (TREL, e))
+        skipped = []
+        for c in ast.walk(ttree):
+            if not (isinstance(c, ast.Call) and isinstance(c.func, ast.Attribute) and c.func.attr == "_testknown"
+                    and len(c.args) >= 2 and isinstance(c.args[0], ast.Attribute) and isinstance(c.args[1], ast.Constant)):
+                continue
+            nm = c.args[0].attr
+            args = [_lit(a) for a in c.args[2:]]
+            if nm not in hu.funcs or any(a is None for a in args):
+                skipped.append(nm)
+                continue
+            fn = hu.funcs[nm]
+            term, s_ = fold(fn)
+            if not isinstance(term, (T, bytes)) or _has(term, "opaque"):
+                skipped.append(nm)
+                continue
+            try:
+                got = b32enc(conc(term, dict(enumerate(args))))
+            except Exception as e:
+                raise AnalysisError("vector for %s cannot be evaluated: %s" % (nm, e))
+            r.site(fn, None, "vector %s" % c.args[1].value.decode("ascii", "replace")[:12])
+            r.count(1)
+            r.require(got == c.args[1].value, fn, fn.loc(), "%s%r: the folded derivation %s gives %s ; the recorded known answer "
+                      "is %s" % (nm, tuple(args), show(term), got.decode(), c.args[1].value.decode("ascii", "replace")))
+        if skipped:
+            ctx.note("known-answer vectors not evaluated (opaque helper / non-literal arguments): %s" % ", ".join(sorted(set(skipped))))
+
+
+def _lit(a):
+    if isinstance(a, ast.Constant) and isinstance(a.value, (bytes, int)):
+        return a.value
+    if isinstance(a, ast.BinOp) and isinstance(a.op, ast.Mult):
+        l, r_ = _lit(a.left), _lit(a.right)
+        if l is not None and r_ is not None:
+            try:
+                return l * r_
+            except Exception:
+                return None
+    if isinstance(a, ast.Call) and isinstance(a.func, ast.Attribute) and a.func.attr == "a2b" and len(a.args) == 1:
+        v = _lit(a.args[0])
+        if isinstance(v, bytes):
+            try:
+                return b32dec(v)
+            except Exception:
+                return None
+    return None
+
+
+def _has(t, kind):
+    if not isinstance(t, T):
+        return False
+    if t[0] == kind:
+        return True
+    return any(_has(x, kind) or (isinstance(x, tuple) and not isinstance(x, T) and any(_has(y, kind) for y in x)) for x in t[1:])
 
 
 def _need_static(tr):
